@@ -269,8 +269,63 @@ struct Case {
     mode: &'static str,
 }
 
+/// Hand written programs for shapes the generator does not produce. `@x@` marks an identifier; (name, kind, namespace) lists them.
+fn directed_programs() -> Vec<Program> {
+    let specs: Vec<(&str, Vec<(&str, IdKind, Option<&str>)>)> = vec![
+        (
+            // structs of two namespaces bound to the parameters of one function template; enums and constants of two namespaces
+            "namespace @NA@\n{\n    struct @SA@ { float @ma@; };\n    enum @EA@ { @VA0@, @VA1@ = 4 };\n    static const int @CA@ = 3;\n}\nnamespace @NB@\n{\n    struct @SB@ { float @mb@; };\n    enum @EB@ { @VB0@ = 2, @VB1@ };\n    static const int @CB@ = 5;\n}\ntemplate<typename @TA@, typename @TB@>\nfloat @comb@(@TA@ @pa@, @TB@ @pb@)\n{\n    return @pa@.@ma@ + @pb@.@mb@ * 2.0f;\n}\nfloat @entry@(float @x@)\n{\n    @NA@::@SA@ @la@;\n    @la@.@ma@ = @x@;\n    @NB@::@SB@ @lb@;\n    @lb@.@mb@ = @x@ + 1.0f;\n    return @comb@(@la@, @lb@) + (float)((int)@NA@::@EA@::@VA1@ + (int)@NB@::@EB@::@VB1@ * 10 + @NA@::@CA@ * 100 + @NB@::@CB@ * 1000);\n}\n",
+            vec![
+                ("NA", IdKind::Namespace, None), ("SA", IdKind::Struct, Some("NA")), ("ma", IdKind::Member, None), ("EA", IdKind::Enum, Some("NA")), ("VA0", IdKind::EnumValue, None), ("VA1", IdKind::EnumValue, None), ("CA", IdKind::Global, Some("NA")),
+                ("NB", IdKind::Namespace, None), ("SB", IdKind::Struct, Some("NB")), ("mb", IdKind::Member, None), ("EB", IdKind::Enum, Some("NB")), ("VB0", IdKind::EnumValue, None), ("VB1", IdKind::EnumValue, None), ("CB", IdKind::Global, Some("NB")),
+                ("TA", IdKind::TemplateParam, None), ("TB", IdKind::TemplateParam, None), ("comb", IdKind::Function, None), ("pa", IdKind::Param, None), ("pb", IdKind::Param, None),
+                ("entry", IdKind::Function, None), ("x", IdKind::Param, None), ("la", IdKind::Local, None), ("lb", IdKind::Local, None),
+            ],
+        ),
+    ];
+    let mut out = Vec::new();
+    for (text, ids) in specs {
+        let mut template = text.to_string();
+        let mut idents = Vec::new();
+        let mut ns_of = Vec::new();
+        for (i, (name, kind, _)) in ids.iter().enumerate() {
+            template = template.replace(&format!("@{}@", name), &format!("\u{1}{}\u{2}", i));
+            idents.push(prog::Ident { kind: *kind, name: format!("d{}", name) });
+        }
+        for (_, _, ns) in &ids {
+            ns_of.push(ns.and_then(|n| ids.iter().position(|(m, _, _)| m == &n)));
+        }
+        let entries = ids.iter().position(|(n, _, _)| *n == "entry").into_iter().collect();
+        let multi = ids.iter().position(|(n, _, _)| *n == "comb").into_iter().collect();
+        out.push(Program { template, idents, entries, features: vec!["directed"], multi, ns_of });
+    }
+    out
+}
+
 fn make_case(seed: u64, index: u64) -> Case {
     let mut rng = Rng::for_case(seed, 0x15a, index);
+    if index % 16 == 15 {
+        // a directed program under an adversarial naming that shares names between the namespaces
+        let programs = directed_programs();
+        let program = programs[(index / 16) as usize % programs.len()].clone();
+        let mut s1 = naming(&program, &mut rng, true);
+        for kind in [IdKind::Struct, IdKind::Enum, IdKind::Global] {
+            if rng.chance(2, 3) {
+                let same: Vec<usize> = (0..program.idents.len()).filter(|i| program.idents[*i].kind == kind && program.ns_of[*i].is_some()).collect();
+                if same.len() >= 2 {
+                    s1.names[same[1]] = s1.names[same[0]].clone();
+                    s1.adversarial.push(same[0]);
+                    s1.adversarial.push(same[1]);
+                    if kind == IdKind::Global {
+                        s1.shared_global_name = true;
+                    }
+                }
+            }
+        }
+        s1.adversarial.sort();
+        s1.adversarial.dedup();
+        return Case { program, s1, mode: "adversarial" };
+    }
     let mut cfg = prog::Config::default();
     cfg.allow_double = false;
     cfg.max_functions = 5;
